@@ -47,6 +47,7 @@ def strategy(tier):
             'err': st.sampled_from([errno.ENOSPC, errno.EIO]),
             'partial': st.sampled_from([0, 0, 1, 7, 23, 100]),
             'quota_delta': st.integers(0, 400),
+            'read_probe': st.sampled_from([0, 1, 2, 2, 3]),     # 0 none, 1 before the vote, 2 after it, 3 both
             'big': st.sampled_from([65536, 70000]),
             'bigfield': st.integers(0, 2),
             'post': programs.txn_strategy(victim_allow - {'stale'}),
@@ -91,6 +92,28 @@ def disk_check(kind, d, model, out, where):
             out.fail((PROPERTY, 'disk') + f.sig[1:], f.msg)
     finally:
         fs.close()
+
+
+def reader_probe(runner, t, phase):
+    """other threads keep loading while the transaction is open: every committed object is read
+    (through the storage's pooled read handles) between the stores and the vote, and between the
+    vote and the finish/abort; the answers must be the committed ones"""
+    from vlib.model import q_load
+    if not (runner.read_phases & (1 if phase == 'stored' else 2)):
+        return
+    for oid in sorted(runner.model.oids()):
+        got = q_load(runner.storage, oid)
+        if got not in runner.model.x_load(oid):
+            runner.fail('read-during-transaction', 'mismatch',
+                        'load(%r) while a transaction is %s -> %s ; committed %s' % (
+                            oid, phase, str(got)[:80], str(runner.model.x_load(oid))[:120]))
+            return
+    runner.labels.add('reads-during-transaction')
+
+
+def both_probes(runner, t, phase):
+    reader_probe(runner, t, phase)
+    wrong_txn_probe(runner, t, phase)
 
 
 def wrong_txn_probe(runner, t, phase):
@@ -209,7 +232,11 @@ def _execute(case):
                 from ZODB.FileStorage.FileStorage import FileStorageQuotaError
                 r.injected = (FileStorageQuotaError,)
             if mode == 'wrongtxn':
-                r.probe = wrong_txn_probe
+                r.read_phases = case.get('read_probe') or 0
+                r.probe = both_probes if case.get('read_probe') else wrong_txn_probe
+            elif case.get('read_probe'):
+                r.read_phases = case['read_probe']
+                r.probe = reader_probe
             r.do_txn(meta, case['victim_recs'], end)
             r.probe = None
             r.injected = ()
@@ -242,7 +269,10 @@ def _execute(case):
             return out
         rec = rawio.ACTIVE
         rec.raw_ops = 0
+        r.read_phases = case.get('read_probe') or 0
+        r.probe = reader_probe if case.get('read_probe') else None
         r.do_txn(meta, case['victim_recs'], ['finish'])
+        r.probe = None
         n_ops = rec.raw_ops
         victim_commits = r.last_fault is None and r.committed > 0
     finally:
@@ -262,10 +292,13 @@ def _execute(case):
             rec.raw_ops = 0
             rec.faults = [plan]
             r.injected = (OSError,)
+            r.read_phases = case.get('read_probe') or 0
+            r.probe = reader_probe if case.get('read_probe') else None
             try:
                 r.do_txn(meta, case['victim_recs'], ['finish'])
             finally:
                 rec.faults = []        # "the fault condition ends" (space freed)
+                r.probe = None
             r.injected = ()
             out.evals += 1
             where = 'OSError(%s) injected at raw op #%d of %d (sticky=%d partial=%r)' % (
